@@ -25,6 +25,10 @@ pub struct Cfg {
     pub max_stack: usize,
     /// F1 listed as an open known finding: attribute its effects instead of reporting them
     pub f1_open: bool,
+    /// C02: the last pre-created collector is a `&'static` one wrapped with `Dispatch::from_static`,
+    /// and `Dispatch::none()` can be opened as a scope (it silences the thread)
+    #[serde(default)]
+    pub static_slot: bool,
 }
 
 enum Cmd {
@@ -120,17 +124,25 @@ struct Model {
     base: Vec<u8>,
 }
 
+/// model slot number of a `Dispatch::none()` scope
+const NONE_K: u8 = 255;
+
 impl Model {
     fn open_scopes(&self) -> usize {
         self.stacks.iter().map(|s| s.len()).sum()
     }
     fn expected_current(&self, t: usize) -> Option<u8> {
-        self.stacks[t].last().map(|f| f.k).or(self.global)
+        match self.stacks[t].last() {
+            // a `Dispatch::none()` scope: nobody, not even the global default
+            Some(f) if f.k == NONE_K => None,
+            Some(f) => Some(f.k),
+            None => self.global,
+        }
     }
     /// what the pinned implementation does when F1 is present
     fn f1_current(&self, t: usize) -> Option<u8> {
         if let Some(f) = self.stacks[t].last() {
-            return Some(f.k);
+            return if f.k == NONE_K { None } else { Some(f.k) };
         }
         if self.open_scopes() == 0 {
             return self.global;
@@ -188,6 +200,9 @@ fn enabled_ops(cfg: &Cfg, m: &Model) -> Vec<String> {
                         v.push(format!("wopen:{}:{}", t, k));
                     }
                 }
+            }
+            if cfg.static_slot && t == 0 {
+                v.push(format!("open:{}:none", t));
             }
         }
         match m.stacks[t].last() {
@@ -274,7 +289,12 @@ fn run(cfg: &Cfg, history: &[String]) -> HResult {
     let all = FiltSpec { thr: 5, a_only: false, kind: 1 };
     if cfg.precreate {
         for k in 0..cfg.slots {
-            handles[k] = Some(Dispatch::new(RecCollector::new(k as u8, all, &FLAGS[k])));
+            handles[k] = Some(if cfg.static_slot && k + 1 == cfg.slots {
+                let leaked: &'static RecCollector = Box::leak(Box::new(RecCollector::new(k as u8, all, &FLAGS[k])));
+                Dispatch::from_static(leaked)
+            } else {
+                Dispatch::new(RecCollector::new(k as u8, all, &FLAGS[k]))
+            });
             m.slots[k] = Some((all, true));
         }
     }
@@ -385,8 +405,11 @@ fn run(cfg: &Cfg, history: &[String]) -> HResult {
                 res.obs = format!("query->{:?}", got);
             }
             "open" | "wopen" => {
-                let (t, k): (usize, usize) = (p[1].parse().unwrap(), p[2].parse().unwrap());
-                let d = handles[k].clone().unwrap();
+                let t: usize = p[1].parse().unwrap();
+                let (k, d) = if p[2] == "none" { (NONE_K as usize, Dispatch::none()) } else {
+                    let k: usize = p[2].parse().unwrap();
+                    (k, handles[k].clone().unwrap())
+                };
                 if m.base[t] == 0 {
                     m.base[t] = if m.global.is_some() { 2 } else { 1 };
                 }
